@@ -166,7 +166,7 @@ def run(tier):
             meta.append(dict(kind=kind, label=label))
         for r in fixed:
             add("hostile", r["label"], bytes=r["bytes"], progs=progs if r["core"] and (not quick or rnd.random() < 0.25) else few)
-        sizes = [2000, 100000] if quick else [2000, 100000, 1000000, 4000000]
+        sizes = [2000, 100000] if quick else [2000, 100000, 1000000]
         for r in reps:
             for n in sizes:
                 if n > 1000000 and len(r["unit"]) > 8:
